@@ -25,7 +25,11 @@ ANCHORS = [
                                    "RunInfo.init_store", "_compare_to_previous_run_info", "_cleanup_run_folder"]),
     ("pipefunc/map/_run.py", ["run_map", "_existing_and_missing_indices", "_execute_single", "_load_from_store",
                               "_dump_single_output", "_single_dump_single_output", "_maybe_persist_memory",
-                              "_run_and_process_generation", "_update_array", "_output_from_mapspec_task"]),
+                              "_run_and_process_generation", "_update_array", "_output_from_mapspec_task",
+                              # what happens to completed results when a user function raises
+                              "_keep_completed_elements", "_process_task", "_process_task_async", "_process_generation",
+                              "_submit_generation", "_maybe_parallel_map", "_maybe_execute_single",
+                              "_run_iteration_and_process", "_result"]),
     ("pipefunc/map/_storage_array/_file.py", ["FileArray.__init__", "FileArray.dump", "FileArray.has_index",
                                               "FileArray.get_from_index", "FileArray.mask_linear"]),
     ("pipefunc/map/_storage_array/_dict.py", ["DictArray.__init__", "DictArray.persist", "DictArray.load",
@@ -36,8 +40,12 @@ RULE = ("small valid structural map requests (<= 3 functions, sizes <= 3, storag
         "replace / rmtree / user call) of the first run and of a resumed run is compared with the model's; (b) the child is "
         "(storages file_array, dict and shared_memory_dict) killed with os._exit at EVERY event index k (an append is torn: half of the bytes are written), or a user function "
         "raises at its n-th call, optionally a second crash during the first resume, then a child resumes with "
-        "cleanup=False; non-trivial = a crash or raise point; distinct by (specs, shapes, storage, crash points)")
-ASSUMPTIONS = ["sequential semantics (parallel=False); crash points of worker processes are not injected",
+        "cleanup=False; (c) chains of 1-3 successive interruptions by a raising user function (transient faults at later "
+        "and later elements), each run sequential or with a reverse-order executor passed through `executor=` (elements "
+        "behind the failing one finish first), storages dict / file_array / shared_memory_dict, then a final resume; "
+        "non-trivial = a crash or raise point; distinct by (specs, shapes, storage, crash points / chain)")
+ASSUMPTIONS = ["sequential semantics (parallel=False) or one deterministic out-of-order executor (whole queue run in reverse "
+               "submission order when the first result is demanded); crash points of worker processes are not injected",
                "file-system operations are atomic and durable in program order (no page-cache / fsync modelling); "
                "rmtree is one event",
                "pickle/cloudpickle/json round trips are the identity on complete files and fail on torn files"]
@@ -286,6 +294,54 @@ def _inplace_patch():
     D.DictArray.load = dict_load
 
 
+class ReverseExecutor:
+    """Factory (the class is created lazily so that importing this module does not need concurrent.futures state):
+    an Executor, passed through the public `executor=` argument, that queues every submit and - when the first result
+    is demanded - runs the whole queue in REVERSE submission order in the calling thread.  So when pipefunc collects
+    the results in order and meets a failing element, every element behind it has already finished."""
+
+    @staticmethod
+    def make():
+        from concurrent.futures import Executor, Future
+
+        class _Fut(Future):
+            def __init__(self, ex):
+                super().__init__()
+                self._ex = ex
+
+            def result(self, timeout=None):
+                if not self.done():
+                    self._ex.flush()
+                return super().result(timeout)
+
+            def exception(self, timeout=None):
+                if not self.done():
+                    self._ex.flush()
+                return super().exception(timeout)
+
+        class _Rev(Executor):
+            def __init__(self):
+                self.queue = []
+
+            def submit(self, fn, /, *args, **kwargs):
+                f = _Fut(self)
+                self.queue.append((f, fn, args, kwargs))
+                return f
+
+            def flush(self):
+                q, self.queue = self.queue[::-1], []
+                for f, fn, a, k in q:
+                    try:
+                        f.set_result(fn(*a, **k))
+                    except BaseException as e:  # noqa: BLE001
+                        f.set_exception(e)
+
+            def shutdown(self, wait=True, *, cancel_futures=False):
+                self.flush()
+
+        return _Rev()
+
+
 def child_run(spec, outpath):
     """Runs in the forked child.  spec: req, folder, cleanup, crash_at, half, fail_line, logpath, inplace."""
     import warnings
@@ -304,7 +360,12 @@ def child_run(spec, outpath):
             p = _build(spec["req"], _NoTick() if pool else tracer, spec["logpath"], spec.get("fail_line"))
             tracer.install()
             try:
-                if pool:
+                if spec.get("exec"):
+                    r = p.map(mapsym.map_inputs(spec["req"]), run_folder=spec["folder"],
+                              internal_shapes=mapsym.internal_arg(spec["req"]),
+                              storage=spec["req"].get("storage", "file_array"), executor=ReverseExecutor.make(),
+                              cleanup=spec["cleanup"])
+                elif pool:
                     from concurrent.futures import ProcessPoolExecutor
 
                     with ProcessPoolExecutor(2) as ex:
@@ -433,10 +494,10 @@ class _Work:
     def __exit__(self, *a):
         shutil.rmtree(self.dir, ignore_errors=True)
 
-    def spec(self, c, cleanup, crash_at=None, fail_line=None, pool=False):
+    def spec(self, c, cleanup, crash_at=None, fail_line=None, pool=False, exec_=False):
         return {"req": c["req"], "folder": self.folder, "cleanup": cleanup, "crash_at": crash_at,
                 "half": c.get("half", True), "fail_line": fail_line, "logpath": self.log, "inplace": bool(c.get("old")),
-                "pool": pool}
+                "pool": pool, "exec": exec_}
 
     def take_log(self):
         lines = read_log(self.log)
@@ -467,6 +528,19 @@ def run_crash(c):
         return [lst, out, sorted(before), sorted(w.take_log()), reload_obs(c["req"], w.folder) if out[0] == "ok" else None]
 
 
+def run_chain(c):
+    """Interrupted runs (a user function raises; sequential or behind the reverse-order executor), then the final resume."""
+    with _Work() as w:
+        before = []
+        for j, st in enumerate(c["steps"]):
+            fork_run(w.spec(c, j == 0, fail_line=st["line"], exec_=bool(st.get("exec"))), w.dir)
+            before += w.take_log()
+        lst = folder_listing(w.folder) if os.path.isdir(w.folder) else []
+        _, r = fork_run(w.spec(c, False), w.dir)
+        out = _outcome(r)
+        return [lst, out, sorted(before), sorted(w.take_log()), reload_obs(c["req"], w.folder) if out[0] == "ok" else None]
+
+
 def reload_obs(req, folder):
     """What load_outputs reads back from the run folder, per output (in a later process this is all that is left)."""
     from pipefunc.map import load_outputs
@@ -482,12 +556,81 @@ def reload_obs(req, folder):
     return out
 
 
-def run_impl(c):
+def run_impl_direct(c):
     if c["kind"] == "events":
         return run_events(c)
     if c["kind"] == "crash":
         return run_crash(c)
+    if c["kind"] == "chain":
+        return run_chain(c)
     raise ValueError(c["kind"])
+
+
+# The cases of one `generate` call are run by a few worker interpreters in parallel (each case forks its own children
+# and uses its own temporary folder, so cases are independent); single cases (replay, shrinking) run right here.
+WORKERS = 6
+_PENDING: dict = {}
+_DONE: dict = {}
+
+
+def _key(c):
+    return json.dumps(c, sort_keys=True)
+
+
+def _safe_direct(c):
+    try:
+        return run_impl_direct(c)
+    except Exception as e:  # noqa: BLE001
+        return Err(e)
+
+
+def _run_batch(cases):
+    import pickle
+    import subprocess
+    from concurrent.futures import ThreadPoolExecutor
+
+    from ..common import REPO, VERIF, Infra
+
+    tmp = tempfile.mkdtemp(prefix="verif_c05b_")
+    try:
+        k = max(1, min(WORKERS, len(cases) // 8))
+        shards = [list(range(j, len(cases), k)) for j in range(k)]
+        env = dict(os.environ, PYTHONPATH=f"{VERIF}{os.pathsep}{REPO}", PYTHONHASHSEED="0", PYTHONDONTWRITEBYTECODE="1")
+
+        def one(j):
+            inp, outp = os.path.join(tmp, f"in{j}.pkl"), os.path.join(tmp, f"out{j}.pkl")
+            with open(inp, "wb") as f:
+                pickle.dump([cases[i] for i in shards[j]], f)
+            p = subprocess.run([sys.executable, "-m", "harness.props.c05", "--batch", inp, outp, str(REPO)], env=env,
+                               cwd=str(VERIF), timeout=3000, stdout=subprocess.DEVNULL, stderr=subprocess.PIPE, text=True)
+            if p.returncode != 0 or not os.path.exists(outp):
+                raise Infra(f"C05 batch worker failed (rc={p.returncode}):\n{p.stderr[-1500:]}")
+            with open(outp, "rb") as f:
+                return pickle.load(f)
+
+        with ThreadPoolExecutor(max_workers=k) as ex:
+            res = list(ex.map(one, range(k)))
+        out = [None] * len(cases)
+        for j, rs in enumerate(res):
+            for i, r in zip(shards[j], rs):
+                out[i] = r
+        return out
+    finally:
+        shutil.rmtree(tmp, ignore_errors=True)
+
+
+def run_impl(c):
+    k = _key(c)
+    if k not in _DONE:
+        if k in _PENDING and len(_PENDING) > 1:
+            batch = list(_PENDING.values())
+            _PENDING.clear()
+            for cc, o in zip(batch, _run_batch(batch)):
+                _DONE[_key(cc)] = o
+        else:
+            _PENDING.pop(k, None)
+            return _safe_direct(c)
+    return _DONE.pop(k)
 
 
 # ------------------------------------------------------------------ Coq literals
@@ -496,6 +639,9 @@ def emit_case(c) -> str:
     q = c06mod.req_lit(c["req"])
     if c["kind"] == "events":
         return f"(CEvents {q} {st} {cbool(bool(c.get('old')))})"
+    if c["kind"] == "chain":
+        steps = clist([f"({cstr(x['fn'])}, {cnat(x['n'])}, {cbool(bool(x.get('exec')))})" for x in c["steps"]])
+        return f"(CChain {q} {st} {steps})"
     fail = "None" if not c.get("fail") else f"(Some ({cstr(c['fail'][0])}, {cnat(c['fail'][1])}))"
     return (f"(CCrash {q} {st} {cbool(bool(c.get('old')))} {fail} {copt(c.get('k1'), cnat)} {copt(c.get('k2'), cnat)})")
 
@@ -563,6 +709,44 @@ def crash_cases(rng, req, old, every, max_pairs, with_fail=True, only_fail=False
     return out
 
 
+def gen_chain_req(rng, storage):
+    while True:
+        r = mapgen.gen_request(rng, max_funcs=3, max_size=4, max_rank=2, storages=("file_array",))
+        if mapgen.request_size(r) > 12:
+            continue
+        r["storage"] = storage
+        return c06mod.sorted_like_pipeline(r)
+
+
+def chain_cases(rng, req, per_req=4):
+    """Chains of interruptions by a raising user function (>= 1 run raises, often 2 or 3 in a row), each run sequential or
+    behind the reverse-order executor; the later failure points lie behind the earlier ones so that a resumed run
+    completes elements before it raises again."""
+    pr = probe(req, False)
+    if pr is None:
+        return []
+    _ev1, _ev2, calls = pr
+    by_fn = {}
+    for ln in calls:
+        by_fn.setdefault(ln.split("(")[0], []).append(ln)
+    fns = [fn for fn, l in by_fn.items() if len(l) >= 2]
+    out = []
+    for _ in range(per_req if fns else 0):
+        fn = rng.choice(fns)
+        mine = by_fn[fn]
+        m = len(mine)
+        k = rng.choice([1, 2, 2, 2, 3])
+        ns = sorted(rng.sample(range(m), min(k, m)))
+        if len(ns) >= 2 and ns[0] == 0 and m > len(ns):      # prefer a non-empty stored prefix after the first raise
+            ns = sorted(rng.sample(range(1, m), len(ns))) if m - 1 >= len(ns) else ns
+        mode = rng.choice(["seq", "seq", "exec", "exec", "mixed"])
+        steps = [{"fn": fn, "n": n, "line": mine[n],
+                  "exec": mode == "exec" or (mode == "mixed" and rng.random() < 0.5)} for n in ns]
+        out.append({"kind": "chain", "req": req, "steps": steps,
+                    "tag": "chain-%d-%s" % (len(steps), "+".join("exec" if x["exec"] else "seq" for x in steps))})
+    return out
+
+
 def every_n(n):
     return max(4, n // 4)
 
@@ -580,6 +764,14 @@ def _tag(evs, k):
 
 
 def generate(rng, tier, mult):
+    out = _generate(rng, tier, mult)
+    _PENDING.clear()
+    for c in out:
+        _PENDING[_key(c)] = c
+    return out
+
+
+def _generate(rng, tier, mult):
     out = []
     n_ev = (10 if tier == "quick" else 120) * mult
     for _ in range(n_ev):
@@ -605,10 +797,18 @@ def generate(rng, tier, mult):
     for q in range((2 if tier == "quick" else 10) * mult):
         st = ["file_array", "dict"][q % 2]
         out += crash_cases(rng, gen_small_req(rng, storage=st), True, every=True, max_pairs=2, with_fail=False)
+    # chains of raise-interruptions (sequential / out-of-order executor), every storage, dict most often
+    for q in range((9 if tier == "quick" else 120) * mult):
+        st = ["dict", "file_array", "dict", "shared_memory_dict", "dict", "dict"][q % 6]
+        out += chain_cases(rng, gen_chain_req(rng, st), per_req=3 if tier == "quick" else 5)
     return out
 
 
 def nontrivial_key(c):
+    if c["kind"] == "chain":
+        return ([mapsym.spec_str(f.get("spec")) for f in c["req"]["funcs"]],
+                [v["sh"] if isinstance(v, dict) else 0 for _, v in c["req"]["inputs"]], c["req"].get("storage"),
+                [(x["fn"], x["n"], bool(x.get("exec"))) for x in c["steps"]])
     if c["kind"] != "crash":
         return None
     specs = [mapsym.spec_str(f.get("spec")) for f in c["req"]["funcs"]]
@@ -636,3 +836,13 @@ if __name__ == "__main__":  # fresh-interpreter child:  python -m harness.props.
         with open(sys.argv[2]) as _f:
             _spec = json.load(_f)
         child_run(_spec, sys.argv[3])
+    if len(sys.argv) == 5 and sys.argv[1] == "--batch":      # python -m harness.props.c05 --batch in.pkl out.pkl <repo>
+        import pickle
+
+        sys.modules["zarr"] = None
+        sys.path.insert(0, sys.argv[4])
+        with open(sys.argv[2], "rb") as _f:
+            _cases = pickle.load(_f)
+        _res = [_safe_direct(_c) for _c in _cases]
+        with open(sys.argv[3], "wb") as _f:
+            pickle.dump(_res, _f)
